@@ -1,10 +1,25 @@
 # C06 — distinct-count estimates and their confidence bounds are consistent (Theta, Tuple, HLL, CPC, shared estimator functions)
 #
-# Mutations confirmed caught / harmless rewrites confirmed tolerated: see the list at the end of this header (filled in
-# after the mutation runs in a scratch worktree with VERIF_REPO).
+# Mutations confirmed caught (scratch worktree /tmp/wt_bounds, VERIF_REPO, quick tier; each printed VIOLATION):
+#  M1  binomial_bounds::get_lower_bound: `std::min(estimate, std::max(n, lb))` -> `lb`            (oracle bb_lb_below_retained + transcript)
+#  M2  lb_equiv_table index `3*n + (sd-1)` -> `3*n + sd` (off by one)                              (oracle bb_widen + transcript)
+#  M3b evaluate_polynomial loop `j >= start` -> `j > start` (ICON constant coefficient dropped)     (transcript: bit-exact ICON polynomial)
+#  M4  HllArray::getLowerBound numNonZeros = configK - numAtCurMin_ even when curMin_ > 0          (oracle hll_lb_below_count + transcript)
+#  M5  compute_approx_binomial_upper_bound: `if (theta == 1) return n` removed                      (oracle bb_exact / sk_exact)
+#  M5b theta get_upper_bound: `if (!is_estimation_mode()) return get_num_retained()` removed       (oracle sk_exact on an empty sketch with p < 1)
+#  M6  one lb_equiv_table entry with two digits swapped (3.8678.. -> 3.6878..)                      (proof obligation C06_tables_pinned)
+#  M7  get_hip_confidence_lb: `if (result < check) result = check` removed                          (transcript; oracle cpc_lb_below_coupons)
+#  M8  get_icon_confidence_lb reading ICON_LOW_SIDE_DATA instead of ICON_HIGH_SIDE_DATA            (transcript on cpc union results)
+#  M10 tuple get_upper_bound(sd, subset): `std::min(num_subset_entries, get_num_retained())` removed (oracle sk_exact / transcript)
+# NOT observable (equivalent mutant, reported): M3 "ICON clamp removed" (`if (result >= c) return result; else return c` -> `return result`):
+#  an exhaustive scan of lg_k 4..26 x every coupon count of the polynomial branch (up to 3*10^6) shows the clamp never fires, so no
+#  output changes; the clamp itself is covered by theorem C06_clamps_never_below_count.
+# Harmless rewrites confirmed tolerated (one run with all four, exit 0): H1 the min/max clamp written as explicit comparisons;
+#  H2 table entries written with more / fewer decimal digits that round to the same double; H3 commuted factors and summands in
+#  cont_classic_lb; H4 HllArray::getLowerBound with numNonZeros computed as an integer first, statements reordered, fmax arguments swapped.
 import struct, math
 PROP = "C06"
-READY = False
+READY = True
 COQ_PROPS = ['Properties_C06']
 TRANSLATORS = ['gen_boundtables']
 RULE = ('ENUMERATION over the implementation (not proof): the real functions are called on a dense grid and the property predicates '
@@ -160,6 +175,11 @@ def gen_hll(rng, tier):
                 for sd in (1, 2, 3):
                     ops.append([5, upper, ooo, lgk, sd])
     cases.append(dict(id='hllrelerr', ops=ops, tags=['hll-relerr']))
+    ops = []
+    for ty in (0, 1, 2):
+        ops += [[6, 1, 4, 6, 4, ty, 48, 5, 0, 11 + ty], [6, 1, 7, 9, 7, ty, 128, 5, 2, 21 + ty], [6, 1, 9, 11, 9, ty, 1536, 5, 0, 31 + ty],
+                [6, 1, 8, 10, 8, ty, 900, 40, 7, 41 + ty]]
+    cases.append(dict(id='hllunion_downsample', ops=ops, tags=['hll-union-downsample']))
     lgks = [4, 5, 7, 8, 10, 12, 13, 14] if tier == 'quick' else [4, 5, 6, 7, 8, 9, 10, 11, 12, 13, 14, 16, 18]
     cid = 0
     for lgk in lgks:
@@ -281,6 +301,8 @@ def oracle(case, irecs, mrecs):
                 continue
             est = b2d(R[0]); b = [b2d(x) for x in R[1:7]]
             triple_checks('bb', est, b, i, fails, exact_to=(float(n) if theta == 1.0 else None))
+            if any(x < min(est, float(n)) for x in b[0::2]):
+                fails.append(dict(sig='bb_lb_below_retained', what='lower bound %r below the number of samples %d (estimate %r)' % (b[0::2], n, est), op_index=i))
             if n == 0 and (est != 0 or b[0] != 0 or b[2] != 0 or b[4] != 0):
                 fails.append(dict(sig='bb_zero_samples', what='zero samples: est %r lbs %r' % (est, b[0::2]), op_index=i))
         elif code in (3, 4) and len(R) == 10:
@@ -298,6 +320,8 @@ def oracle(case, irecs, mrecs):
             triple_checks('sk', est_m, b, i, fails, exact_to=(float(m) if not estmode else None))
             if not estmode and est != float(n):
                 fails.append(dict(sig='sk_exact', what='estimate %r != retained %d outside estimation mode' % (est, n), op_index=i))
+            if any(x < min(est_m, float(m)) for x in b[0::2]):
+                fails.append(dict(sig='sk_lb_below_retained', what='lower bound %r below the number of retained entries %d (estimate %r)' % (b[0::2], m, est_m), op_index=i))
             if est < n:
                 fails.append(dict(sig='sk_est_lt_retained', what='estimate %r below the retained count %d' % (est, n), op_index=i))
             if code == 4 and not estmode and struct.unpack('<f', struct.pack('<I', op[4]))[0] == 1.0:
@@ -325,7 +349,12 @@ def oracle(case, irecs, mrecs):
             if op[1] in (0, 1) and mode != 2:
                 true = op[4] if op[1] == 0 else op[6] + op[7] - op[8]
                 if abs(est - true) > 0.01 * true + 1e-9:
-                    fails.append(dict(sig='hll_small_range', what='LIST/SET mode estimate %r for %d distinct items' % (est, true), op_index=i))
+                    if op[1] == 1:
+                        fails.append(dict(sig='hll_union_result_small_range', what='hll_union(lg_k %d) of a sketch with %d items (lg_k %d) and one with %d items '
+                                          '(lg_k %d, %d shared): LIST/SET mode result estimates %r for %d distinct items' %
+                                          (op[2], op[6], op[3], op[7], op[4], op[8], est, true), op_index=i))
+                    else:
+                        fails.append(dict(sig='hll_small_range', what='LIST/SET mode estimate %r for %d distinct items' % (est, true), op_index=i))
             if op[1] in (0, 1):
                 true = op[4] if op[1] == 0 else op[6] + op[7] - op[8]
                 if true == 0 and (est != 0 or any(x != 0 for x in b)):
@@ -339,9 +368,11 @@ def oracle(case, irecs, mrecs):
         elif code == 8 and len(R) == 6 and len(E) == 4:
             lgk, c, merged = E[0:3]; est = b2d(E[3]); b = [b2d(x) for x in R]
             triple_checks('cpc', est, b, i, fails, exact_to=(0.0 if c == 0 else None))
+            if any(x < c for x in b[0::2]):
+                fails.append(dict(sig='cpc_lb_below_coupons', what='lower bound %r below the number of coupons %d' % (b[0::2], c), op_index=i))
             if est < c:
                 fails.append(dict(sig='cpc_est_below_coupons', what='estimate %r below the number of coupons %d' % (est, c), op_index=i))
-            if op[1] == 0 and op[3] <= 2 and abs(est - op[3]) > 0.01:
+            if op[1] == 0 and op[3] <= 1 and est != float(op[3]):     # 0 or 1 item: exact (first HIP increment is k/k = 1)
                 fails.append(dict(sig='cpc_small_range', what='estimate %r for %d distinct items' % (est, op[3]), op_index=i))
         elif code == 9 and len(R) == 1 and len(F) == 6:
             est = b2d(R[0]); b = [b2d(x) for x in F]
@@ -358,6 +389,31 @@ FAMILIES = [dict(name='bounds', harness='drv_bounds.cpp', extract='Extract_bound
                  ocaml_flags='-rectypes -thread -package coq-core.kernel -linkpkg', cxx_flags='-ffp-contract=off')]
 
 MANIFEST = dict(
-    level_text='',
-    level_note='',
+    level_text=('Theorems (coq/Properties_C06.v, 31 obligations) about the executable definitions that are extracted and replayed against the code. '
+                'PROVED for all inputs: (1) Theta/Tuple: get_lower_bound <= get_estimate <= get_upper_bound as coded (std::min/std::max clamps around '
+                'binomial_bounds) for EVERY binary64 value of theta and of the inner approximation functions (NaN/inf included: never est < lb, never '
+                'ub < est; with IEEE <= when no NaN is involved), any retained count, any number of std devs, in and outside estimation mode; '
+                '(2) exactness outside estimation mode, bit for bit: theta64 = MAX_THETA gives get_theta() = 1.0 and lb = estimate = ub = retained '
+                '(x / 1.0 = x for every binary64 x, via Flocq), empty sketches with any theta > 0 give 0; binomial_bounds special cases theta = 1 and '
+                'zero samples, and the branch structure of the inner approximations (table / exact-tail branches only for 1|2 <= n <= 120); '
+                '(3) clamps of CouponList, HllArray, cpc_confidence and the ICON estimator never return less than the coupon count / number of '
+                'non-zero registers (all binary64 values); (4) in exact rational arithmetic: lb <= est <= ub and widening in the number of std devs for '
+                'the HLL array, coupon list and CPC bound formulas under the sign conditions of the relative-error factors, widening passes through the '
+                'binomial_bounds clamps, lb >= retained count, HIP accumulator >= number of non-zero registers for every update sequence of an abstract '
+                'register array (every increment k/kxq >= 1); (5) side conditions of the tables TRANSLATED from the headers on every run '
+                '(binomial_bounds, RelativeErrorTables, cpc_confidence, icon_estimator, coupon interpolation): lengths, every index formula stays '
+                'inside its table, lower-side factors > 0, upper-side factors in (-1,0), monotone in the std devs per row, getRelErr and the cpc eps '
+                'as modelled bit-exactly for every lg_k, and a digest pinning every table entry. '
+                'COMPARED by the correspondence run (bit for bit, every run): all clamp expressions of the four sketch types, cont_classic_lb/ub and the '
+                'branch selection of binomial_bounds, hll get_rel_err, cpc eps/ceil, the ICON polynomial, the coupon cubic interpolation, erf/normal_cdf. '
+                'ENUMERATED on the implementation outputs (labelled enumeration, not proof): lb <= est <= ub, widening with the std devs, exactness in '
+                'exact mode, est/lb >= retained or coupon count, over the dense grid described in the evidence rule.'),
+    level_note=('NOT claimed: negligible bias, spread <= published RSE, interval coverage; monotone widening across the approximation branches as a '
+                'theorem; anything through pow/log/exp beyond the ordering clamps (those inner values are read from the implementation and the '
+                'theorems quantify over them). The HLL/CPC/coupon order and widening theorems with divisions are over exact rationals, not binary64. '
+                'The HIP theorem is about an abstract register model that this check does not replay against HllArray (C03 does that). '
+                'Trusted: Coq kernel incl. primitive floats and vm_compute; FloatAxioms specification of primitive floats; classical real-number '
+                'axioms of the standard library (only for x/1.0 = x via Flocq); the table translator (python float() as decimal->binary64 conversion); '
+                'hand-written model validated by bit-exact replay; glibc fmax/ceil/sqrt assumed IEEE-conforming; harness built with -ffp-contract=off. '
+                'The ICON clamp never fires on any reachable input, so its removal is not observable by any run (covered by theorem only).'),
     design_ref='DESIGN.md section 5 C06')
